@@ -57,6 +57,11 @@ def gen_members(rng, long_chain=False):
             ms.append((f, "F", ("content of " + f + "\n").encode()))
     if rng.random() < 0.5:
         ms.append(("dir/", "D", b""))
+    if rng.random() < 0.35:
+        # members at and beyond the sizes where copy loops change their block size (4096, 65536)
+        ms.append(("big/f65536.bin", "F", bytes(range(256)) * 256))
+        ms.append(("big/f70001.txt", "F", (b"line of a long member\n" * 3200)[:70001]))
+        ms.append(("big/f4096.bin", "F", b"\xfe" * 4096))
     nl = rng.randint(0, 4)
     targets = ["dir", "dir/file.txt", "a.txt", "docs", "sub", "../a.txt", "/dir/sub", "/docs/readme", "nowhere", "l1", "l2", "l1/file.txt",
                "l2/sub/deep.txt", "./dir/./sub", "dir/../docs", "../../etc/passwd", "/", "l3", ""]
